@@ -762,6 +762,116 @@ func (s *scoreState) OnNil(ctx gotype.UnfoldCtx) error {
 	return nil
 }
 
+// IntList is unfolded through a user-defined UnfoldState that works in two
+// phases: the first state waits for the array start and continues (Cont) with
+// a second state that collects the elements until the array ends (Done).
+// Nested arrays are collected by pushing (Push) a third kind of state.
+// (Not self-referential: the pinned tree overflows the stack when it compiles
+// an unfolder for a recursive type - outside the claimed properties.)
+type IntList struct {
+	V   []int64
+	Sub [][]int64
+}
+
+func (l IntList) Fold(v structform.ExtVisitor) error {
+	if err := v.OnArrayStart(len(l.V)+len(l.Sub), structform.AnyType); err != nil {
+		return err
+	}
+	for _, i := range l.V {
+		if err := v.OnInt64(i); err != nil {
+			return err
+		}
+	}
+	for _, s := range l.Sub {
+		if err := v.OnArrayStart(len(s), structform.AnyType); err != nil {
+			return err
+		}
+		for _, i := range s {
+			if err := v.OnInt64(i); err != nil {
+				return err
+			}
+		}
+		if err := v.OnArrayFinished(); err != nil {
+			return err
+		}
+	}
+	return v.OnArrayFinished()
+}
+
+type Lists struct {
+	Name string
+	A    IntList
+	L    []IntList
+	M    map[string]IntList
+}
+
+type intListStart struct {
+	gotype.BaseUnfoldState
+	to *IntList
+}
+
+func (s *intListStart) OnArrayStart(ctx gotype.UnfoldCtx, _ int, _ structform.BaseType) error {
+	s.to.V, s.to.Sub = nil, nil
+	ctx.Cont(&intListElems{to: s.to})
+	return nil
+}
+
+func (s *intListStart) OnNil(ctx gotype.UnfoldCtx) error {
+	ctx.Done()
+	return nil
+}
+
+type intListElems struct {
+	gotype.BaseUnfoldState
+	to *IntList
+}
+
+func (s *intListElems) OnInt(ctx gotype.UnfoldCtx, i int64) error {
+	s.to.V = append(s.to.V, i)
+	return nil
+}
+
+func (s *intListElems) OnUint(ctx gotype.UnfoldCtx, u uint64) error {
+	s.to.V = append(s.to.V, int64(u))
+	return nil
+}
+
+func (s *intListElems) OnArrayStart(ctx gotype.UnfoldCtx, _ int, _ structform.BaseType) error {
+	s.to.Sub = append(s.to.Sub, []int64{})
+	ctx.Push(&intSubElems{to: &s.to.Sub[len(s.to.Sub)-1]})
+	return nil
+}
+
+func (s *intListElems) OnArrayFinished(ctx gotype.UnfoldCtx) error {
+	ctx.Done()
+	return nil
+}
+
+type intSubElems struct {
+	gotype.BaseUnfoldState
+	to *[]int64
+}
+
+func (s *intSubElems) OnInt(ctx gotype.UnfoldCtx, i int64) error {
+	*s.to = append(*s.to, i)
+	return nil
+}
+
+func (s *intSubElems) OnUint(ctx gotype.UnfoldCtx, u uint64) error {
+	*s.to = append(*s.to, int64(u))
+	return nil
+}
+
+func (s *intSubElems) OnArrayFinished(ctx gotype.UnfoldCtx) error {
+	ctx.Done()
+	return nil
+}
+
+// IntListUnfolder registers the two-phase state unfolder for IntList.
+func IntListUnfolder() gotype.UnfoldOption {
+	return gotype.Unfolders(func(to *IntList) gotype.UnfoldState { return &intListStart{to: to} })
+}
+
 // NumUnfolderVariants is the number of user-unfolder configurations.
 const NumUnfolderVariants = 4
 
@@ -844,7 +954,7 @@ func UnfolderOpts(v int) []gotype.UnfoldOption {
 	if v == 0 {
 		return nil
 	}
-	return append(scoreOpts(v), TreeUnfolder(), LabelUnfolder(), PrimUnfolders())
+	return append(scoreOpts(v), TreeUnfolder(), LabelUnfolder(), PrimUnfolders(), IntListUnfolder())
 }
 
 // LabelUnfolder registers a primitive user unfolder for Label that keeps the
@@ -1071,6 +1181,23 @@ func genShape(c *simkit.Choices) Shape {
 		return Sq{Side: float64(c.N(100)) / 4}
 	}
 	return &Circ{R: float64(c.N(100)) / 2, Label: genStr(c)}
+}
+
+func genIntList(c *simkit.Choices, depth int) IntList {
+	var l IntList
+	for i, n := 0, c.N(4); i < n; i++ {
+		// (non-negative: OnInt(int) events reach a user state as OnUint in the
+		// pinned tree, a value question outside the claimed properties)
+		l.V = append(l.V, int64(c.N(1000)))
+	}
+	for i, n := 0, c.N(3); i < n && c.N(2) == 0; i++ {
+		sub := []int64{}
+		for j, k := 0, c.N(3); j < k; j++ {
+			sub = append(sub, int64(c.N(1000)))
+		}
+		l.Sub = append(l.Sub, sub)
+	}
+	return l
 }
 
 func genInner(c *simkit.Choices) Inner {
@@ -1698,6 +1825,11 @@ var Catalogue = []TypeEntry{
 		f := NF32(float32(c.N(100)) / 4)
 		return NamedPrims{Bool: NBool(c.Bool()), Str: NStr(genStr(c)), Int: NInt(int(genI(c))), I8: NI8(int8(c.N(256))), I16: NI16(int16(c.N(65536))), I32: NI32(int32(genI(c))), I64: NI64(genI(c)), Uint: NUint(uint(genU64(c))), U8: NU8(uint8(c.N(256))), U16: NU16(uint16(c.N(65536))), U32: NU32(uint32(genI(c))), U64: NU64(genU64(c)), F32: NF32(float32(c.N(1000)) / 8), F64: NF64(genF(c)), L: []NI16{NI16(c.N(65536))}, M: map[string]NU32{GenKey(c, 4): NU32(c.N(100000))}, P: &f}
 	}),
+	mk("IntList", false, func(c *simkit.Choices) IntList { return genIntList(c, 0) }),
+	mk("Lists", true, func(c *simkit.Choices) Lists {
+		return Lists{Name: genStr(c), A: genIntList(c, 0), L: genSlice(c, func(c *simkit.Choices) IntList { return genIntList(c, 1) }),
+			M: genMap(c, func(c *simkit.Choices) IntList { return genIntList(c, 1) })}
+	}),
 	mk("Label", true, func(c *simkit.Choices) Label { return Label{S: genStr(c)} }),
 	mk("Labeled", true, func(c *simkit.Choices) Labeled {
 		l := Labeled{Name: genStr(c), L: Label{S: genStr(c)}, LL: genSlice(c, func(c *simkit.Choices) Label { return Label{S: genStr(c)} }),
@@ -1748,7 +1880,7 @@ var families = map[string][]string{
 	"kv":     {"OrderedKV", "WithKV", "map[string]string", "Strs"},
 	"arrays": {"Triple", "Pair", "Quad", "[]interface{}-of-named-arrays", "[3]int", "ArrHolder", "[]interface{}"},
 	"bad":    {"BadField", "HasBad", "[]BadField", "Simple", "Inner"},
-	"label":  {"Label", "Labeled", "Strs", "Prims", "PInt16", "[]PUint32"},
+	"label":  {"Label", "Labeled", "Strs", "Prims", "PInt16", "[]PUint32", "IntList", "Lists"},
 	"omit":   {"Opts", "[]Opts", "OmitIfc", "OmitAll", "LongNames", "Tagged"},
 	"empty":  {"[]Empty", "map[string]Empty", "Empties", "[]interface{}", "map[string]interface{}"},
 	"shape":  {"map[string]Shape", "[]Shape", "Shapes", "map[string]interface{}", "[]interface{}"},
@@ -1786,7 +1918,7 @@ func PickRelated(c *simkit.Choices, n int, forUnfold bool) []*TypeEntry {
 // it is (measured: 6000 generated values per type), which gives an exact
 // ground truth for complete matching documents.
 var inexactRoundTrip = map[string]bool{"interface{}": true, "[]interface{}": true, "map[string]interface{}": true, "Tagged": true, "Strs": true,
-	"[]map[string]interface{}": true, "OmitAll": true, "local-A.record": true, "Label": true, "Labeled": true, "Prims": true, "PInt16": true, "[]PUint32": true}
+	"[]map[string]interface{}": true, "OmitAll": true, "local-A.record": true, "Label": true, "Labeled": true, "Prims": true, "PInt16": true, "[]PUint32": true, "IntList": true, "Lists": true}
 
 // ExactRoundTrip reports whether unfolding the fold of a value of this type
 // into a zero target must reproduce the value (nil and empty identified).
